@@ -10,7 +10,7 @@ From V.c05 Require Import C05Model C05FragModel C05OffProofs.
 From V.c15 Require Import C15Model C15Spec C15HevcModel C15HevcSpec C15Examples C15HevcSliceExamples.
 From V.c06 Require Import C06SencModel C06SencAuxProofs.
 From V.c07 Require Import C07Model C07Spec C07RangeProofs C07CryptProofs C07AuxProofs C07FinalProofs.
-From V.c07 Require Import C07CodecModel C07CodecProofs C07FragProofs C07OnlyProofs C07TrafModel C07TrafProofs C07MixedProofs C07OffsetProofs.
+From V.c07 Require Import C07CodecModel C07CodecProofs C07FragProofs C07OnlyProofs C07TrafModel C07TrafProofs C07MixedProofs C07OffsetProofs C07SizeProofs.
 
 (* AppendProtectRange, every nrClear / nrProtected (65535, 65536, 131070, ... included) *)
 Theorem C07_append_protect_range : forall ssps c p,
@@ -170,7 +170,7 @@ Theorem C07_cbcs_shape_avc :
   key_ok key = true -> length iv = 16%nat ->
   wf_nalus_cbcs nalus = true -> lenN (frames nalus) < 4294967296 ->
   (forall n, In n nalus -> first_is_video avc_is_video n = true ->
-     exists sh, parse_slice_er spsmap ppsmap n = Ok sh /\ sh_size sh <= lenN n) ->
+     exists sh, parse_slice_er spsmap ppsmap n = Ok sh) ->
   exists r, avc_protect_ranges spsmap ppsmap Cbcs (frames nalus) = Ok r /\
             expand r = spec_mask avc_is_video (fun n => lenN n - hs_of (avc_hdr spsmap ppsmap) n) nalus /\
             sumN (map (fun p => ss_clear p + ss_prot p) r) = lenN (frames nalus) /\
@@ -188,7 +188,7 @@ Theorem C07_cbcs_shape_hevc :
   key_ok key = true -> length iv = 16%nat ->
   wf_nalus_cbcs nalus = true -> lenN (frames nalus) < 4294967296 ->
   (forall n, In n nalus -> first_is_video hevc_is_video n = true ->
-     exists sh, hparse_slice_er spsmap ppsmap n = Ok sh /\ s_size sh <= lenN n) ->
+     exists sh, hparse_slice_er spsmap ppsmap n = Ok sh) ->
   exists r, hevc_protect_ranges spsmap ppsmap Cbcs (frames nalus) = Ok r /\
             expand r = spec_mask hevc_is_video (fun n => lenN n - hs_of (hevc_hdr spsmap ppsmap) n) nalus /\
             sumN (map (fun p => ss_clear p + ss_prot p) r) = lenN (frames nalus) /\
@@ -352,6 +352,36 @@ Theorem C07_aux_mixed_pinned_refuted :
 Proof. exact aux_mixed_pinned_refuted. Qed.
 Print Assumptions C07_aux_mixed_pinned_refuted.
 
+(* the slice-header size avc/hevc.ParseSliceHeader report (uint32(r.NrBytesRead())) never exceeds the NAL unit, for
+   EVERY byte string and every parameter-set map: the former hypothesis `sh_size <= |NAL unit|` of the cbcs theorems,
+   proved over the C15 parser models on the C13 EBSP reader model (invariant rpos <= |data| carried through every
+   reader operation, combinator and loop of the parser text) *)
+Theorem C07_slice_header_size_bounded :
+  (forall spsmap ppsmap nalu sh, parse_slice_er spsmap ppsmap nalu = Ok sh -> sh_size sh <= lenN nalu) /\
+  (forall spsmap ppsmap nalu sh, hparse_slice_er spsmap ppsmap nalu = Ok sh -> s_size sh <= lenN nalu).
+Proof. split; [exact avc_slice_size_le|exact hevc_slice_size_le]. Qed.
+Print Assumptions C07_slice_header_size_bounded.
+
+(* the exact outcome when a slice header does NOT parse (truncated slice, unknown PPS id, video NAL unit type without
+   slice header syntax, ...; cbcs): the first such video NAL unit makes Get(AVC|HEVC)ProtectRanges return the error,
+   whatever stands behind it - the sample is refused (EncryptFragment: "get protect ranges"), never mis-described.
+   With C07_cbcs_shape_avc/_hevc (every header parses) this covers every sample of non-empty NAL units *)
+Theorem C07_cbcs_unparsable_refused :
+  (forall spsmap ppsmap pre n post,
+     (forall m, In m pre -> nonempty m = true /\
+                (first_is_video avc_is_video m = true -> exists sh, parse_slice_er spsmap ppsmap m = Ok sh)) ->
+     first_is_video avc_is_video n = true -> parse_slice_er spsmap ppsmap n = Err ->
+     lenN (frames (pre ++ n :: post)) < 4294967296 ->
+     avc_protect_ranges spsmap ppsmap Cbcs (frames (pre ++ n :: post)) = Err) /\
+  (forall spsmap ppsmap pre n post,
+     (forall m, In m pre -> nonempty m = true /\
+                (first_is_video hevc_is_video m = true -> exists sh, hparse_slice_er spsmap ppsmap m = Ok sh)) ->
+     first_is_video hevc_is_video n = true -> hparse_slice_er spsmap ppsmap n = Err ->
+     lenN (frames (pre ++ n :: post)) < 4294967296 ->
+     hevc_protect_ranges spsmap ppsmap Cbcs (frames (pre ++ n :: post)) = Err).
+Proof. split; [exact cbcs_unparsable_refused_avc|exact cbcs_unparsable_refused_hevc]. Qed.
+Print Assumptions C07_cbcs_unparsable_refused.
+
 (* trun.data_offset after encryption, on the bytes of the fragment: the moof grows by exactly |saiz|+|saio|+|senc|,
    so does the offset Fragment.Encode writes (data_offset = moof size + mdat header, see C07_offsets_grow_struct), and
    reading sample i of the ENCRYPTED file (moof || mdat) through the grown offset returns the encrypted sample i -
@@ -448,13 +478,13 @@ Definition ex_hevc_nalus : list (list N) :=
 Example ex_hevc_hyp :
   wf_nalus_cbcs ex_hevc_nalus = true /\ lenN (frames ex_hevc_nalus) < 4294967296 /\
   forall n, In n ex_hevc_nalus -> first_is_video hevc_is_video n = true ->
-    exists sh, hparse_slice_er ex_spsmap ex_ppsmap n = Ok sh /\ s_size sh <= lenN n.
+    exists sh, hparse_slice_er ex_spsmap ex_ppsmap n = Ok sh.
 Proof.
   split; [vm_compute; reflexivity|]. split; [vm_compute; reflexivity|].
   intros n [<- | [<- | [<- | []]]] Hv; try (vm_compute in Hv; discriminate).
   destruct (hparse_slice_er ex_spsmap ex_ppsmap (hnalu_slice ex_hsps ex_hpps_b ex_hslice_b ++ repeat 171 200)) as [sh| | |] eqn:Ep;
     vm_compute in Ep; try discriminate.
-  exists sh. split; [reflexivity|]. inversion Ep. vm_compute. discriminate.
+  exists sh. reflexivity.
 Qed.
 
 Example ex_hevc_ranges :
@@ -500,4 +530,16 @@ Example ex_offsets :
             firstn 102 (nth 1 (bf_samples g) []) = firstn 102 (frames ex_nalus)
   | _ => False
   end.
+Proof. vm_compute. repeat split; reflexivity. Qed.
+
+(* the slice of C15's example cut inside its 30-byte header: AVC's parser has no error check at its end and reports
+   the bytes it could read (the whole NAL unit stays clear); cut to its NAL header byte it is refused.  HEVC's parser
+   checks the reader's error before returning: a cut header is refused *)
+Example ex_truncated_slices :
+  let n := nalu_slice ex_sl_sps ex_sl_pps ex_slice in
+  avc_hdr ex_avc_spsmap ex_avc_ppsmap (firstn 12 n) = Ok 12 /\
+  avc_protect_ranges ex_avc_spsmap ex_avc_ppsmap Cbcs (frames [firstn 12 n]) = Ok [mkSsp 16 0] /\
+  avc_protect_ranges ex_avc_spsmap ex_avc_ppsmap Cbcs (frames [[9; 240]; [101]; n]) = Err /\
+  hevc_protect_ranges ex_spsmap ex_ppsmap Cbcs
+    (frames [[70; 1; 80]; firstn 20 (hnalu_slice ex_hsps ex_hpps_b ex_hslice_b)]) = Err.
 Proof. vm_compute. repeat split; reflexivity. Qed.
